@@ -109,11 +109,24 @@ class Out:
         self.notes.append(msg)
 
 
+LOAD_ERRORS = {}
+_LOADED = False
+
+
 def load_rules():
+    """Import every rules/Cxx.py; a module that fails to import only disables its own property."""
+    global _LOADED
+    if _LOADED:
+        return
+    _LOADED = True
     pkg = os.path.join(os.path.dirname(os.path.abspath(__file__)), 'rules')
     for fn in sorted(os.listdir(pkg)):
         if fn.endswith('.py') and not fn.startswith('_'):
-            importlib.import_module(f'omstatic.rules.{fn[:-3]}')
+            try:
+                importlib.import_module(f'omstatic.rules.{fn[:-3]}')
+            except Exception as e:
+                LOAD_ERRORS[fn[:-3]] = f'{type(e).__name__}: {e}'
+                REGISTRY.pop(fn[:-3], None)
 
 
 def run_rules(prop, repo, tier='quick', only=None):
@@ -283,6 +296,9 @@ def run_selftest(prop, base_items, findings, jobs=16, base_repo=None):
 def check_property(prop, tier='quick', seed=0, write=True):
     t0 = time.time()
     load_rules()
+    if prop in LOAD_ERRORS:
+        print(f'ANALYSIS-ERROR property={prop} rule module failed to import: {LOAD_ERRORS[prop]}')
+        return 2
     if prop not in REGISTRY:
         print(f'ANALYSIS-ERROR property={prop} no rules registered')
         return 2
